@@ -156,7 +156,11 @@ def explore(mod, tier, seed):
     else:
         ctx = mp.get_context("fork")
         chunk = max(1, min(64, len(cases) // (nproc * 8)))
-        with ctx.Pool(nproc, initializer=_worker_init, initargs=(mod.__name__,)) as pool:
+        fresh = getattr(mod, "FRESH", False)  # one fresh (forked from the pristine parent) process per case
+        if fresh:
+            chunk = 1
+        with ctx.Pool(nproc, initializer=_worker_init, initargs=(mod.__name__,),
+                      maxtasksperchild=1 if fresh else None) as pool:
             for idx, res in pool.imap_unordered(
                 _run_one, [(i, cases[i]) for i in order], chunksize=chunk
             ):
